@@ -6,5 +6,6 @@ CONSTANTS
   FMenu = {"none", "ren", "expr", "renexpr", "swap", "swapexpr", "ghostd"}
   VGs = {0, 1}
   EGs = {0, 1}
+  VGModes = {"both", "flav"}
 INVARIANTS Emit Symmetric
 CHECK_DEADLOCK FALSE
